@@ -118,7 +118,7 @@ def find_helper(repo, name):
                                 depth -= 1
                             q -= 1
                         hbody = [self_ty if (x == "Self" and self_ty) else x for x in toks[j + 1:bc]]
-                        found.append({"params": names, "has_self": has_self, "body": hbody, "where": f"{os.path.relpath(os.path.join(dp, f), repo)}: fn {name}"})
+                        found.append({"params": names, "has_self": has_self, "self_ty": self_ty, "body": hbody, "where": f"{os.path.relpath(os.path.join(dp, f), repo)}: fn {name}"})
     if len(found) != 1:
         return None
     h = found[0]
